@@ -490,8 +490,9 @@ ROOT_CONFIGS = [
 ]
 CHAIN_PREFIXES = [None, '', 'sub', 'sub/']
 # round 4: a chain inside a chain (outer prefix, inner prefix) around the constrained member; and an UNconstrained member on
-# another folder ({BASE}/elsewhere, consulted first) next to the constrained one
+# another folder ({BASE}/t/root_evil/sub, consulted first) next to the constrained one
 NESTED_CHAINS = [('nest', 'sub', ''), ('nest', '', 'sub'), ('nest', 'x/..', 'sub'), ('mixed', '', ''), ('mixed', '..', 'sub')]
+LOOSE_MEMBER = '/t/root_evil/sub'      # folder of the unconstrained member of a mixed chain (deep enough that the relative spellings stay in the tree)
 THIN_LABELS = ['abs-trailing-sep', 'relative-trailing-sep', 'unnormalised', 'pathlib', 'relative']
 PLAIN_CONFIGS = 7           # the first seven root configurations are drawn by the random part (keeps the random stream of round 3)
 ESCAPE_KEYS = ('escape-', 'handle-escape-', 'history-escape-')
@@ -626,7 +627,7 @@ def make_fs(base: str, root_spec: str, chain_prefix, constrain: bool = True):
     if isinstance(chain_prefix, tuple) and chain_prefix[0] == 'nest':
         return FileSystemChain((FileSystemChain((raw, chain_prefix[2])), chain_prefix[1])), raw
     if isinstance(chain_prefix, tuple) and chain_prefix[0] == 'mixed':
-        return FileSystemChain((new_raw(base + '/elsewhere', False), chain_prefix[1]), (raw, chain_prefix[2])), raw
+        return FileSystemChain((new_raw(base + LOOSE_MEMBER, False), chain_prefix[1]), (raw, chain_prefix[2])), raw
     return FileSystemChain((raw, chain_prefix)), raw
 
 
@@ -784,11 +785,15 @@ def run_op(base: str, root_spec: str, chain_prefix, op: str, path_t: str, cold: 
             # what the UNconstrained member of the chain touches on its own (it is exempt): the same operation on a chain
             # that holds only such a member
             from srctools.filesys import FileSystemChain
-            alone = FileSystemChain((new_raw(base + '/elsewhere', False), chain_prefix[1]))
+            alone = FileSystemChain((new_raw(base + LOOSE_MEMBER, False), chain_prefix[1]))
             ans_u: list = []
+            if op == 'walk' and not is_inside(base, os.path.normpath(os.path.join(
+                    base + LOOSE_MEMBER, os.path.join(chain_prefix[1], path).replace('\\', '/')))):
+                # the unconstrained member would walk folders outside the scratch tree (other people's files): not run
+                prep = 'skipped:the unconstrained member would walk out of the scratch tree'
             with observe() as ev_u:
                 try:
-                    if op in SUB_OPS:
+                    if op in SUB_OPS and prep is None:
                         _sub_op(alone, op, path, [], 400, ans_u)
                 except Exception:
                     pass
@@ -961,7 +966,7 @@ def run_op(base: str, root_spec: str, chain_prefix, op: str, path_t: str, cold: 
         # contents name the file they are in ('CONTENT-OF:<path relative to BASE>'); an error message may quote them
         for where in content_paths(base, d):
             if not is_inside(root, where) and not exempted(where) \
-                    and not (exempt and is_inside(base + '/elsewhere', where)):
+                    and not (exempt and is_inside(base + LOOSE_MEMBER, where)):
                 leaked.append('CONTENT-OF:' + os.path.relpath(where, base))
     # an existence test / lookup that answers (instead of raising) about a name that lexically leads out of the root has
     # told the caller something about the outside, even when a cache made the OS call unnecessary
